@@ -59,6 +59,17 @@ def collect(v, tier, rnd, h, d, prop):
             i += 1
             ast = sqlgen.gen_ast(rnd, i)
             st = sqlgen.Style(rnd)
+            if i % 40 == 7:
+                # regularly: a name containing the quote character it is quoted with (written doubled), in every quoting style
+                qn = [("b`t", "bt"), ('q"t', "dq"), ("m`n`o", "bt"), ('u""v', "dq")][(i // 40) % 4]
+                tgt = ast["cols"][i % len(ast["cols"])]
+                tgt["name"] = qn[0]
+                if (i // 40) % 2 == 0:
+                    tgt["type"], tgt["isint"], tgt["cons"] = "", False, []      # nothing after the name: what follows the quote decides
+                for c_ in ast["cols"]:
+                    c_["cons"] = [k_ for k_ in c_["cons"] if k_["k"] != "check"]
+                ast["tcons"], ast["idx"] = [], []
+                st.quote = qn[1]
             if any(not c["name"].isascii() for c in ast["cols"]) and rnd.random() < 0.75:
                 # names beyond ASCII written bare with nothing (or one blank) between them and the punctuation around them
                 st.quote = "bare"
@@ -124,7 +135,9 @@ def collect(v, tier, rnd, h, d, prop):
                 got = sorted(tuple(values.from_jval(j) for j in row) for row in dres[k].get("rows") or [])
                 want = sorted(tuple(values.from_sqlite(x) for x in row) for row in datarows[t_][1])
                 stored_sql = [sql_ for a_, sql_, _ in batch if a_["name"] == t_][0]
-                DATA_PAIRS.append(({"cls": "data/%d" % len(DATA_PAIRS), "what": "rows of a table defined as %r" % stored_sql[:300], "sql": "SELECT all columns"}, got, want))
+                ast_ = [a_ for a_, _, _ in batch if a_["name"] == t_][0]
+                tag_ = "integer-with-parameters/" if any("(" in c_["type"] and c_["type"].upper().startswith("INTEGER") for c_ in ast_["cols"]) else ""
+                DATA_PAIRS.append(({"cls": "data/%s%d" % (tag_, len(DATA_PAIRS)), "what": "rows of a table defined as %r" % stored_sql[:300], "sql": "SELECT all columns"}, got, want))
         creq = []
         for k, (a, sq, stored, istored) in enumerate(rows):
             creq.append({"op": "sqlparse", "sql": stored, "id": len(creq)})
@@ -202,6 +215,15 @@ def classify(e, why):
         ks = [k["k"] for k in c["cons"]]
         if "unique" in ks and "pk" in ks and ks.index("unique") < ks.index("pk") and next(k for k in c["cons"] if k["k"] == "pk")["desc"]:
             return "unique-before-primary-key-desc-in-one-column"
+    # INTEGER with parameters -- INTEGER(8) -- is not the type name INTEGER: no rowid alias in SQLite; sqlittle's grammar
+    # drops the parameters (known finding)
+    # (as a rowid alias in a rowid table, as the "integer primary key made last" in a WITHOUT ROWID table)
+    for c in ast["cols"]:
+        if "(" in c.get("type", "") and c["type"].upper().startswith("INTEGER"):
+            single_pk = any(k["k"] == "pk" for k in c["cons"]) or \
+                any(t["k"] == "pk" and len(t["cols"]) == 1 and t["cols"][0]["name"].lower() == c["name"].lower() for t in ast["tcons"])
+            if single_pk:
+                return "integer-with-parameters-read-as-integer"
     names_sq = {i["name"] for i in sq["indexes"]}
     extra = [i["name"] for i in res["indexes"] if i["name"] not in names_sq]
     if extra:
